@@ -509,6 +509,25 @@ func confirmMonitor(files []string, hr HarnessRun, params map[string]int, known 
 		}
 		return false, "race build: " + nr.Status
 	}
+	if strings.Contains(f.Msg, "direct access to the environment") {
+		// canary demonstration: the harness re-roots its virtual file tree in a real temporary directory in
+		// which the names no loader serves exist as real files (param canary=1), and fails if they get through
+		b, err := buildNative(files, false)
+		if err != nil {
+			return false, "native build failed: " + firstLine(err.Error())
+		}
+		defer b.Close()
+		p := map[string]int{}
+		for k, v := range params {
+			p[k] = v
+		}
+		p["canary"] = 1
+		nr := b.run(nativeCase{Harness: hr.Entry, Vector: f.Vector, Params: p, Known: keys(known)}, 120*time.Second)
+		if nr.Status == "fail" || nr.Status == "panic" {
+			return true, "native run with canary files on the real file system: " + nr.Status + " " + nr.Msg
+		}
+		return false, "canary run: " + nr.Status
+	}
 	return false, "no native demonstration available"
 }
 
